@@ -1058,3 +1058,36 @@ duf -hide-fs <FS>[,<FS>]...;
         ));
     }
 }
+
+#[cfg(feature = "verif")]
+pub mod verif_hooks {
+    use super::{Position, Regex, RegexId, RegexInternPool};
+
+    pub fn regex_id_raw(id: RegexId) -> usize {
+        id.0
+    }
+
+    pub fn followpos(regex: &Regex) -> Vec<(Position, Vec<Position>)> {
+        regex
+            .followpos()
+            .iter()
+            .map(|(pos, follow)| (*pos, follow.iter().collect()))
+            .collect()
+    }
+
+    pub fn lookup(pool: &RegexInternPool, id: RegexId) -> &Regex {
+        pool.lookup(id)
+    }
+
+    pub fn pool_len(pool: &RegexInternPool) -> usize {
+        pool.store.len()
+    }
+
+    pub fn lookup_by_index(pool: &RegexInternPool, index: usize) -> &Regex {
+        pool.store.get_index(index).unwrap()
+    }
+
+    pub fn dot_string_constant(s: &str) -> String {
+        super::make_dot_string_constant(s)
+    }
+}
